@@ -178,9 +178,11 @@ P = {
    text="Coq theorems over Password.v/PasswordCfb.v (on Cfb.v): C20_filepass_is_password (+ _workbook/_book): for any leading records "
         "with their CONTINUEs that the globals loop passes over, any FILEPASS body and any well-framed records after it the result "
         "is Err Password; C20_encrypted_ooxml_is_password_any_layout / _encrypted_stream_is_password_any_layout: for EVERY container "
-        "holding an EncryptedPackage object and EVERY valid physical layout the check on the file BYTES is Err Password (composed "
-        "with C13_written_names_listed); C20_ods_encryption_data_is_password and C20_ods_manifest_spec; and the converse "
-        "C20_no_false_positive_{xls,xls_real,ooxml,ooxml_any_layout,ooxml_dirs,ods}. Totality: C20_no_panic_ooxml_check(_file), "
+        "whose ROOT storage holds an EncryptedPackage object and EVERY valid physical layout whose links are a tree the check on the file BYTES "
+        "is Err Password (composed with C13_has_directory_root; _any_layout_flat: files without hierarchy, an object of that name anywhere); "
+        "C20_ods_encryption_data_is_password and C20_ods_manifest_spec; and the converse "
+        "C20_no_false_positive_{xls,xls_real,ooxml,ooxml_any_layout,ooxml_dirs,ods}, C20_nested_encrypted_package_not_password (an "
+        "EncryptedPackage held only by an embedded object is not password protection). Totality: C20_no_panic_ooxml_check(_file), "
         "_parse_dirs, _record_iter, _xls_globals(_real), _manifest_scan, _ods_new. Tie: generated encrypted containers (random "
         "ciphertext and layouts; the whole Cfb.cfb_new model on files up to 40 kB), FILEPASS of BIFF8 XOR / RC4 and BIFF5 form at "
         "several positions in Workbook and Book streams, manifests with one/many encrypted entries, damaged containers, against "
@@ -223,23 +225,30 @@ P = {
    design_ref="5/C04"),
  "C13": dict(claimed=True,
    text="Coq theorems over Cfb.v, through the BYTES: C13_layout_independent — for every container (512- or 4096-byte sectors, any "
-        "named streams of any sizes) and every valid layout (placement of every FAT, DIFAT, directory, mini-FAT, mini-stream and "
-        "stream sector, directory order with unused entries, free sectors, start field of empty streams), "
-        "cfb_get_stream fuel (cfb_write c l) n = Ok b for every stream (fuel >= 1 + number of DIFAT sectors; names distinct over the file: names_unique), hence "
-        "C13_same_streams_same_read; built from C13_header_roundtrip (v3/v4), C13_difat_roundtrip, C13_fat_load_roundtrip, "
-        "C13_dir_chain_roundtrip, C13_dirs_roundtrip (UTF-16 names), C13_minifat_load_roundtrip, C13_ministream_roundtrip, "
+        "storages and named streams of any sizes, names unique PER STORAGE only, any hierarchy) and every valid layout (placement of every FAT, "
+        "DIFAT, directory, mini-FAT, mini-stream and stream sector, directory order with unused entries, free sectors, start field of empty "
+        "streams) whose child / sibling ids are a tree over the hierarchy (linked_tree: any shape, a legal MS-CFB tree in particular: "
+        "C13_legal_tree_linked), cfb_get_stream fuel (cfb_write c l) path = Ok b for the stream the specification finds at that path "
+        "(fuel >= 1 + number of DIFAT sectors), C13_path_not_found, hence C13_same_streams_same_read; the lookup itself: "
+        "C13_find_entry_resolve (Cfb::find on the written directory = the specification's resolve on EVERY path, wherever the entries sit in "
+        "the array), C13_children_of_object; C13_workbook_stream_preferred (Xls::parse_workbook reads the ROOT storage's Workbook, else its "
+        "Book, wherever embedded objects sit; hypothesis: no root STORAGE is called Workbook), C13_has_directory_root; files without hierarchy "
+        "(root child id NOSTREAM: the flat scan): C13_find_dir_first, C13_flat_layout_independent(_first), C13_flat_workbook_stream_preferred, "
+        "C13_has_directory_flat; built from C13_header_roundtrip (v3/v4), C13_difat_roundtrip, C13_fat_load_roundtrip, "
+        "C13_dir_chain_roundtrip, C13_dirs_roundtrip (UTF-16 names, link fields), C13_minifat_load_roundtrip, C13_ministream_roundtrip, "
         "C13_chain_follow (any duplicate-free chain, any state of the lazy sector cache), C13_mini_compose, C13_empty_stream; "
-        "C13_written_names_listed (interface for C20); the lookup the readers rely on: C13_find_dir_first (find_dir reaches the entry in the "
-        "lowest directory slot among the objects of that name), C13_layout_independent_first, C13_workbook_stream_preferred(_unique) "
-        "(Workbook preferred over Book in any directory order); "
-        "C13_chain_cycle_is_error and totality C13_chain_total, C13_no_panic_cfb_new, C13_no_panic_get_stream (all inputs: neither "
-        "Panic nor OutOfFuel at fuel > file length / 512). Two known classes with refutations on legal directory trees: shadowed_name / "
-        "shadowed_workbook (names are unique per storage only, the lookup takes the first entry of that name in the flat array: an "
-        "embedded object's Workbook stream in a lower slot is read instead of the root's; fix proposal in notes/C13_fix_proposal.diff). Tie: hook Cfb::new / get_stream / "
-        "has_directory on extracted cfb_write outputs (both sector sizes, shuffled chains, boundary sizes, 40-entry directories, free "
-        "sectors, > 109 FAT sectors), malformed containers, and every xls fixture re-laid-out under random layouts through Xls::new.",
-   note=TB + " The 7.2 MB DIFAT case is compared code vs spec only (the extracted model is too slow on it).",
-   technique="Coq proof (byte-level round trips of header, DIFAT, FAT, directory, mini structures; chain induction with cache invariant) + extracted-encoder correspondence",
+        "C13_chain_cycle_is_error and totality C13_chain_total, C13_no_panic_cfb_new, C13_no_panic_get_stream, C13_children_fuel_suffices "
+        "(all inputs, cyclic / dangling sibling ids included: neither Panic nor OutOfFuel at fuel > file length / 512). No known class is left: "
+        "shadowed_workbook / shadowed_name (audit G8) were repaired by the fix: commit that made the lookup follow the hierarchy; positive examples "
+        "(embedded workbook in either slot order, root Book + embedded Workbook, two VBA projects at the same depth) replace the refutations. "
+        "Tie: hook Cfb::new / find / children / get_stream / has_directory on extracted cfb_write outputs (both sector sizes, shuffled chains, "
+        "boundary sizes, 40-entry directories, free sectors, > 109 FAT sectors; links: legal tree of random shape, unsorted sibling chain, none, "
+        "damaged — cycles, shared nodes, dangling ids), the Python reading of the specification cross-checked against the extracted "
+        "Cfb.spec_path, malformed containers, Xls::new on containers with two workbooks, and every xls fixture re-laid-out under random "
+        "layouts — alone and with ANOTHER fixture's whole tree embedded next to it — through Xls::new + worksheet_range + vba_project.",
+   note=TB + " The 7.2 MB DIFAT case is compared code vs spec only (the extracted model is too slow on it). Name comparison is exact (MS-CFB compares "
+        "upper-cased names); object types are not read (a root STORAGE named Workbook is taken for the stream: stated as a hypothesis).",
+   technique="Coq proof (byte-level round trips of header, DIFAT, FAT, directory, mini structures; chain induction with cache invariant; stack walk vs in-order walk of the sibling trees; induction over paths) + extracted-encoder correspondence",
    design_ref="5/C13"),
  "C16": dict(claimed=True,
    text="Coq theorems over Meta.v, one complete parse-encode theorem per format: C16_report_xlsx, C16_report_ods, C16_report_xls, "
@@ -365,7 +374,7 @@ STALE = set()
 STALE_REASON = ("temporarily not claimed: a shared model file this slice imports (Col26.v / Range.v) was just re-synchronised with the "
                 "hardened code and the slice's bridge lemmas are being re-proved against it; until that is merged the slice's proof "
                 "files do not all compile")
-HOOK_COMMITS = ["6e4993e", "bb5031b", "a67f951", "bdf3a94", "d6d3370"]
+HOOK_COMMITS = ["6e4993e", "bb5031b", "a67f951", "bdf3a94", "d6d3370", "13b2ff0"]
 if __name__ == "__main__":
     main()
     # the source baseline (tools/source_baseline.json) belongs to the same /repo HEAD as the manifest
